@@ -114,7 +114,7 @@ def main():
             props = args[1].split(",")
         args = args[2:]
     for sd in args:
-        sd = sd.rstrip("/")
+        sd = os.path.abspath(sd.rstrip("/"))
         if mode == "verify":
             print(json.dumps(verify(sd)))
         else:
